@@ -87,7 +87,7 @@ prop("C06",
      technique="Kani contract harnesses: Memory operations over the abstract view from arbitrary well-formed states; window invariant and in-window dereferences of every threaded op (buffer == window, so any stray access is out of bounds for CBMC)",
      design_ref="DESIGN.md section 4-U2/U5, 5-C06",
      text="Tape API: every operation stays inside the owned block and preserves the view across growth in either or both directions (bounded in size, unbounded in history). Threaded ops: window invariant established by enter_ops, preserved by the checked right move incl. growth, every operand access inside the window; temporaries array sized max(temps,2).",
-     note="Relative to C11 (operands inside the declared window, temp index < temps: not discharged). NOT decided: checked LEFT move/scan that grows below (pointer before the allocation start is not representable in CBMC), the checked scan loop (timeout), the JIT probe sequence unless unit u6 is listed in the evidence.")
+     note="Relative to C11 (operands inside the declared window, temp index < temps: not discharged). The JIT's checked move (probe of the far window edge against the context's bounds, extend call, pointer re-basing) is decided by unit u6 over all tape geometries. NOT decided: the bytecode interpreter's checked LEFT move/scan that grows below (pointer before the allocation start is not representable in CBMC) and its checked scan loop (timeout).")
 
 prop("C10",
      units=[("kani", "u5_bcint_ops", None), ("kani", "u6_jit", None)],
@@ -111,4 +111,4 @@ prop("C03",
      technique="per-instruction contract of the real JIT selector/encoder: the bytes the real emit_program produces for a concrete bytecode instruction are run under an x86-64 subset semantics by Kani over ALL machine states and compared with the bytecode step semantics; operands enumerated",
      design_ref="DESIGN.md section 4-U6, 5-C03",
      text="Selector/encoder layer: for every enumerated instruction instance (every arm of the selector's match x register class incl. stack temporaries x immediate class incl. 64-bit immediates x displacement class x live mask x width) the emitted machine code computes the bytecode step for all register/stack/tape/context contents, preserves live temporaries and touches no byte outside the destination; branches, the budget check and the unchecked move likewise.",
-     note="Trusted: the x86-64 subset semantics (decoder run natively, executor in Kani), the register map. Quick tier: the bytes come from a native run of the real emitter; thorough tier additionally proves in Kani that emit_program emits exactly them. Inp/Out call sequences are decided under the SysV call contract (caller-saved registers havoc). The x86 specification is conformance-checked against the CPU on every run (each arithmetic instance executed as real machine code). NOT decided: the checked Mov probe/extend/re-base sequence, prologue/epilogue, mmap/transmute, the shared front end (C01, bc.rs).")
+     note="Trusted: the x86-64 subset semantics (decoder run natively, executor in Kani), the register map. Quick tier: the bytes come from a native run of the real emitter; thorough tier additionally proves in Kani that emit_program emits exactly them. Inp/Out call sequences are decided under the SysV call contract (caller-saved registers havoc). The x86 specification is conformance-checked against the CPU on every run (each arithmetic instance executed as real machine code). Also decided: the checked Mov probe/extend/re-base sequence, prologue + epilogue (both exits). NOT decided: mmap/munmap/transmute in enter_jit_code, the shared front end (C01, bc.rs).")
